@@ -77,6 +77,17 @@ Definition sync_day (src : replica) (acc : replica * N) (d : Z) : replica * N :=
   let fetch := filter (fun o => wanted (nodes dst1) o && negb (below_tomb (tombs dst1) o)) (on_day d (nodes src)) in
   ({| nodes := fold_left put_node fetch (nodes dst1); tombs := tombs dst1 |}, (cnt + N.of_nat (length fetch))%N).
 
+(* a day's answer travels cut into batches of bounded size (the serving loops of
+   NodeDeletionEntry::get_entries, Node::get_daily_nodes_for_room, Node::filtered_by_room); the receiver
+   applies the deletion records batch by batch, collects the row identifiers of all batches before
+   filter_existing, and writes the rows batch by batch.  A split is any list of chunks whose
+   concatenation is the answer: the lemmas batches_lossless_tombs and batches_lossless_rows of proofs/SyncP.v show the result does not depend on
+   the split as long as no element is lost — which the harness checks on the code with small answers *)
+Definition apply_tomb_batches (chunks : list (list tomb)) (r : replica) : replica :=
+  fold_left (fun acc c => fold_left apply_tomb c acc) chunks r.
+Definition put_batches (chunks : list (list nrow)) (l : list nrow) : list nrow :=
+  fold_left (fun acc c => fold_left put_node c acc) chunks l.
+
 Definition pull_replica (dst src : replica) (days : list Z) : replica * N :=
   fold_left (sync_day src) days (dst, 0%N).
 
